@@ -174,6 +174,19 @@ def bulk_tree_case(seed, n, shape="uniform", regime="float", soma_root=True, mag
             parents.append(i - 1 if i % 2 == 1 or i < 2 else i - 2)
         elif shape == "binary":
             parents.append((i - 1) // 2)
+        elif shape == "hubs":
+            # a chain 0-1-2 whose nodes have exactly 256, 257 and 255 children (counts that wrap a byte-sized counter);
+            # every further node hangs below one of the leaves
+            if i <= 2:
+                parents.append(i - 1)
+            elif i < 3 + 255:
+                parents.append(0)
+            elif i < 3 + 255 + 256:
+                parents.append(1)
+            elif i < 3 + 255 + 256 + 255:
+                parents.append(2)
+            else:
+                parents.append(int(rs.randint(3, i)))
         else:
             parents.append(int(rs.randint(0, i)))
     if regime == "lattice":
